@@ -40,7 +40,7 @@ RLab(o) == IF o = "o1" THEN "o1r" ELSE IF o = "o2" THEN "o2r" ELSE "xr"
 AllLabels == Orders \cup {RLab(o) : o \in Orders}
 
 InitMkt == [status |-> "OPEN", version |-> 1, inplay |-> FALSE, betdelay |-> 0,
-            bsprec |-> FALSE, closed |-> FALSE, pt |-> 0]
+            bsprec |-> FALSE, closed |-> FALSE, pt |-> 0, removed |-> <<>>]
 
 Init ==
     /\ s = [clock |-> 0, ord |-> <<>>, trd |-> <<>>, rc |-> <<>>,
@@ -65,7 +65,8 @@ FirstDue(st) ==
 
 \* engine outcome menu for a placement of order o (units): <<ok, matched, lapsed, voided>>
 PlaceOutcomes(o) ==
-    IF ~MktOpen(s, Mid) THEN {[ok |-> FALSE, m |-> 0, lap |-> 0, void |-> Rem(s.ord[o]), can |-> 0]}
+    IF ~MktOpen(s, Mid) \/ s.mkt[Mid].removed # <<>>     \* market not open / runner removed: voided
+    THEN {[ok |-> FALSE, m |-> 0, lap |-> 0, void |-> Rem(s.ord[o]), can |-> 0]}
     ELSE {[ok |-> TRUE, m |-> f, lap |-> 0, void |-> 0, can |-> 0] : f \in 0..Rem(s.ord[o])}
          \cup {[ok |-> FALSE, m |-> 0, lap |-> Rem(s.ord[o]), void |-> 0, can |-> 0]}   \* version mismatch / BPE lapse
          \cup {[ok |-> TRUE, m |-> 0, lap |-> 0, void |-> 0, can |-> Rem(s.ord[o])]}    \* fill-or-kill killed
@@ -89,7 +90,8 @@ Exec ==
              THEN LET o == p.orders[1]
                       r == RLab(o)
                       base == [NewReplacement(s, o, r, s.ord[o].newp, Rem(s.ord[o]), p.created) EXCEPT !.mver = s.mkt[Mid].version]
-                  IN \E ok \in BOOLEAN : \E f \in 0..Rem(s.ord[o]) :
+                  IN \E ok \in (IF MktOpen(s, Mid) /\ s.mkt[Mid].removed = <<>> THEN BOOLEAN ELSE {FALSE}) :
+                     \E f \in 0..Rem(s.ord[o]) :
                        s' = Step(s, e, [ord |-> (r :> [base EXCEPT !.bet = ok,
                                                              !.m = IF ok THEN f ELSE 0,
                                                              !.lap = IF ok THEN 0 ELSE Rem(s.ord[o])]),
@@ -124,7 +126,8 @@ Mw ==
                  /\ \A o \in os : f[o] \in MwOutcome(o, newstatus, nv, removed)
                  /\ s' = Step(s, [ev |-> "mw", a |-> [mid |-> Mid]],
                               [ord |-> f, mkt |-> (Mid :> [s.mkt[Mid] EXCEPT !.status = newstatus, !.version = nv,
-                                                                           !.pt = s.clock])])
+                                                                           !.pt = s.clock,
+                                                                           !.removed = IF removed THEN <<"1">> ELSE @])])
     /\ pc' = "sweep"
     /\ UNCHANGED <<nreq, tainted>>
 
@@ -145,7 +148,8 @@ PlaceReq(o) ==
     [kind |-> "PLACE", o |-> o, t |-> TradeOf[o], force |-> FALSE, ctx |-> FALSE, mid |-> Mid,
      strat |-> "A", rck |-> Rck, sel |-> 1, side |-> "BACK", otype |-> "LIMIT", price |-> 200,
      size |-> Size, pers |-> "LAPSE", tif |-> "NONE", minfill |-> -1, multi |-> TRUE, reset |-> 0,
-     placereset |-> 0, maxtrades |-> 10, maxlive |-> 10, pendorders |-> FALSE, r |-> "ACCEPT"]
+     placereset |-> 0, maxtrades |-> 10, maxlive |-> 10, pendorders |-> FALSE, r |-> "ACCEPT",
+     selk |-> "1", client |-> Client]
 
 Requests ==
     {PlaceReq(o) : o \in Orders}
@@ -193,6 +197,15 @@ Inv_C15_LiveListComplete == AtEndOfUpdate => LiveListIncomplete(s) = {}
 Inv_C15_LiveInBlotter == LiveNotInBlotter(s) = {}
 Inv_C07_NoDueLeft == pc \in {"mw", "sweep", "cb", "idle"} => SurvivingDue(s, Mid) = {}
 
+\* C09: whenever a strategy is called, every order that was on the runner when it was removed is
+\* void and complete (an order placed afterwards is still awaiting its failing placement)
+Inv_C09_RemovedComplete ==
+    pc \in {"cb", "idle"} =>
+      \A o \in DOMAIN s.ord :
+         (s.ord[o].inbl /\ s.ord[o].selk \in SeqToSet(s.mkt[Mid].removed)
+          /\ ~(s.ord[o].status = "PENDING" /\ s.ord[o].void = 0 /\ s.ord[o].m = 0)) =>
+            (s.ord[o].cplt /\ s.ord[o].m = 0 /\ Rem(s.ord[o]) = 0)
+
 \* status transitions are legal and completion is final (action properties)
 StatusOf(st, o) == IF o \in DOMAIN st.ord THEN st.ord[o].status ELSE "NONE"
 Prop_C03_Finality == [][FinalityBroken(s, s') = {}]_vars
@@ -205,6 +218,7 @@ Prop_C04_MatchedMonotone ==
 Reach_CompleteOrder == ~(\E o \in DOMAIN s.ord : s.ord[o].status = "COMPLETE" /\ s.ord[o].m = Size)
 Reach_Replacement == ~(\E o \in DOMAIN s.ord : o \notin Orders /\ s.ord[o].status = "EXECUTABLE")
 Reach_TradeComplete == ~(\E t \in DOMAIN s.trd : s.trd[t].status = "COMPLETE")
+Reach_VoidedMatched == ~(\E o \in DOMAIN s.ord : s.ord[o].void = Size /\ s.ord[o].status = "COMPLETE" /\ s.ord[o].nlog >= 3)
 
 TradeOfDef == ("o1" :> "t1") @@ ("o2" :> "t1")
 TradeOfSep == ("o1" :> "t1") @@ ("o2" :> "t2")
